@@ -302,7 +302,8 @@ func TestVerifC18RC(t *testing.T) {
 	corpus := [][]int{
 		{0, 2, 1, 2, 0, 2, 1, 2},       // start tick shutdown tick START-AGAIN tick shutdown tick
 		{1, 0, 0, 2, 1, 2, 1, 2, 1, 2}, // shutdown without start; two sharers
-		{0, 0, 0, 1, 2, 1, 2, 1, 2},    // three sharers leave one by one
+		{0, 0, 0, 1, 2, 1, 2, 1, 2},    // three sharers leave one by one (memory high all the time: they leave while refusing)
+		{0, 0, 2, 1, 1, 0, 2},          // two sharers, refusing, both leave, one comes back (memory high all the time)
 	}
 	const soft = uint64(80 << 20)
 	for _, idx := range vCases(vN(1500)) {
@@ -356,7 +357,21 @@ func TestVerifC18RC(t *testing.T) {
 					}
 					ml.ticker.Stop()
 				}()
+				// the mode right after a start / shutdown, before any time passes: no reading is taken by these calls, so it must
+				// still be the verdict of the most recent measurement (= what we saw last)
+				lastRefuse := false
+				opReads := 0
+				mode := func(what string) {
+					now := ml.MustRefuse()
+					meas := reads - opReads
+					out.Linef("obs mode refuse=%d meas=%d", vB(now), meas)
+					if meas == 0 && now != lastRefuse {
+						out.Linef("viol sig=C18/shared/refusal-changed-without-a-measurement/%s before=%v after=%v users=%d", what, lastRefuse, now, users)
+					}
+					lastRefuse = now
+				}
 				for _, op := range ops {
+					opReads = reads
 					switch op {
 					case 0:
 						out.Linef("op start")
@@ -365,6 +380,7 @@ func TestVerifC18RC(t *testing.T) {
 							return
 						}
 						out.Linef("obs rc err=%d", vB(err != nil))
+						mode("start")
 						if users == 0 && everZero {
 							restarts++
 						}
@@ -376,6 +392,7 @@ func TestVerifC18RC(t *testing.T) {
 							return
 						}
 						out.Linef("obs rc err=%d", vB(err != nil))
+						mode("shutdown")
 						if err == nil {
 							users--
 							if users == 0 {
@@ -387,11 +404,15 @@ func TestVerifC18RC(t *testing.T) {
 					}
 					// every op is followed by a tick window with a scripted reading
 					alloc = []uint64{0, soft - 1, soft, soft + 1, 200 << 20}[r.IntN(5)]
+					if idx == 2 || idx == 3 {
+						alloc = 200 << 20
+					}
 					before := reads
 					time.Sleep(cfg.CheckInterval + cfg.CheckInterval/2)
 					synctest.Wait()
 					out.Linef("op tick r=%d now=%d", alloc, int64(time.Since(start)))
-					out.Linef("obs tick checked=%d refuse=%d", vB(reads > before), vB(ml.MustRefuse()))
+					lastRefuse = ml.MustRefuse()
+					out.Linef("obs tick checked=%d refuse=%d", vB(reads > before), vB(lastRefuse))
 				}
 				if restarts > 0 || len(ops) > 4 {
 					out.Linef("nt")
